@@ -173,6 +173,15 @@ reg("C20", "model_checking",
     "Callback-granular interleavings in one OS thread (real-thread preemption inside CPython internals is outside); EventLoopThread abstracted to owner states; queued calls on a stopped loop may never complete.",
     "DESIGN.md section 3 C20")
 
+reg("C14", "exploration",
+    "bounded exhaustive enumeration of network-settings families x version x NCP capability x prior NCP state through the real write/read paths against a stateful reference NCP",
+    "Versions 4..14 x {rewritable EUI64 token, not} x prior state {blank, restored with the same backup, with another backup} x base / one-at-a-time / all pairs over link keys 0-1-3, children "
+    "(with/without NWK address), TC address known/unknown, hashed link key present/absent, frame counters incl. 2^32-1, channel, update id, key sequence, PAN ids, node IEEE: the real "
+    "write_network_info + load_network_info(load_devices=True) (resets, config writes, version negotiation inside) and field-by-field comparison of the read-back; the initial-security-state frame the "
+    "NCP received is checked for keys, hashed flag and trust-centre presence flag / address.",
+    "Largest hand-written environment (mc/env/ncp_net.py); its firmware-semantics assumptions are listed in the evidence file. v5+ cases use the well-known TC link key (the only one bellows supports with hashing).",
+    "DESIGN.md section 3 C14")
+
 ALL = ["C%02d" % i for i in range(1, 21)]
 
 
